@@ -44,12 +44,18 @@ type recvEvent struct {
 	Named  string `json:"named"`  // the target the party was told: CONNECT authority, authority of the absolute URI, SOCKS target, Host field
 }
 
+type regEntry struct {
+	addr string
+	gen  uint64
+}
+
 type world struct {
 	ln     net.Listener
 	tlsCfg *tls.Config
 
 	mu     sync.Mutex
-	byPort map[string]string // client-side local address -> address it was dialled as
+	byPort map[string]regEntry // client-side local address -> address it was dialled as (+ registration number)
+	gen    uint64
 	dials  []string
 	recv   []recvEvent
 	wg     sync.WaitGroup
@@ -85,7 +91,7 @@ func newWorld() *world {
 	if err != nil {
 		panic(err)
 	}
-	w := &world{ln: ln, byPort: map[string]string{},
+	w := &world{ln: ln, byPort: map[string]regEntry{},
 		tlsCfg: &tls.Config{Certificates: []tls.Certificate{sharedCert}, MinVersion: tls.VersionTLS12}}
 	go func() {
 		for {
@@ -127,12 +133,15 @@ func (w *world) dialFunc(ctx context.Context, network, address string) (net.Conn
 		return nil, fmt.Errorf("scripted dial failure for %s", address)
 	}
 	w.mu.Unlock()
+	// The connection is registered under the lock the accepting side takes to look it up, so a look-up can
+	// never see the entry of an earlier connection that used the same (reused) local port.
 	var d net.Dialer
-	c, err := d.DialContext(ctx, "tcp", w.ln.Addr().String())
 	w.mu.Lock()
+	c, err := d.DialContext(ctx, "tcp", w.ln.Addr().String())
 	w.dials = append(w.dials, address)
 	if err == nil {
-		w.byPort[c.LocalAddr().String()] = address
+		w.gen++
+		w.byPort[c.LocalAddr().String()] = regEntry{address, w.gen}
 	}
 	w.mu.Unlock()
 	return c, err
@@ -152,20 +161,28 @@ type bufConn struct {
 func (b *bufConn) Read(p []byte) (int, error) { return b.r.Read(p) }
 
 func (w *world) serve(c net.Conn) {
-	defer c.Close()
 	c.SetDeadline(time.Now().Add(10 * time.Second))
-	// the dialler registers the local address right after connect; wait for it briefly
-	var party string
+	// the dialler registers the connection under w.mu before it returns it, so normally the entry is there
+	var mine regEntry
 	for i := 0; i < 200; i++ {
 		w.mu.Lock()
-		p, ok := w.byPort[c.RemoteAddr().String()]
+		e, ok := w.byPort[c.RemoteAddr().String()]
 		w.mu.Unlock()
 		if ok {
-			party = p
+			mine = e
 			break
 		}
 		time.Sleep(time.Millisecond)
 	}
+	defer func() {
+		c.Close()
+		w.mu.Lock()
+		if e, ok := w.byPort[c.RemoteAddr().String()]; ok && e.gen == mine.gen {
+			delete(w.byPort, c.RemoteAddr().String())
+		}
+		w.mu.Unlock()
+	}()
+	party := mine.addr
 	if party == "" {
 		party = "?unregistered " + c.RemoteAddr().String()
 	}
